@@ -1,5 +1,6 @@
 //! Kani harnesses over the real `opcua` crate (path dependency on /repo/lib).
 //! One module per property; see /verif/DESIGN.md.
+#![cfg_attr(kani, feature(allocator_api))]
 #![allow(dead_code, unused_imports, clippy::all)]
 
 pub mod stubs;
@@ -8,6 +9,8 @@ pub mod streams;
 pub mod c06_convert;
 pub mod c22_keepalive;
 pub mod c23_revise;
+pub mod c24_queue;
+pub mod c26_time;
 pub mod c37_backoff;
 
 /// Native replay of a counterexample (written by /verif/check; see DESIGN.md 2.6).
